@@ -386,29 +386,6 @@ theorem scPixelModule_not_refused (ba : Int) (pi ts dtypeStr : String) (ndim las
 
 /-! ### a secondary capture decodes to the given array (via the C07 theorems) -/
 
-theorem foldl_max_ge (l : List Int) (a : Int) : a ≤ l.foldl Max.max a ∧ ∀ v ∈ l, v ≤ l.foldl Max.max a := by
-  induction l generalizing a with
-  | nil => simp
-  | cons b l ih =>
-    simp only [List.foldl_cons, List.mem_cons]
-    obtain ⟨h1, h2⟩ := ih (Max.max a b)
-    refine ⟨le_trans (le_max_left a b) h1, ?_⟩
-    intro v hv
-    rcases hv with rfl | hv
-    · exact le_trans (le_max_right a v) h1
-    · exact h2 v hv
-
-theorem le_frame_max (x : Frame) (v : Int) (hv : v ∈ x.data) : v ≤ x.max := by
-  unfold Frame.max
-  cases hd : x.data with
-  | nil => rw [hd] at hv; simp at hv
-  | cons a l =>
-    rw [hd] at hv
-    simp only [List.mem_cons] at hv
-    rcases hv with rfl | hv
-    · exact (foldl_max_ge l v).1
-    · exact (foldl_max_ge l a).2 v hv
-
 theorem dtype_of_name (d : DType) :
     (d.name = "bool" ↔ d = .bool) ∧ (d.name = "uint8" ↔ d = .u8) ∧ (d.name = "uint16" ↔ d = .u16) := by
   cases d <;> simp [DType.name]
@@ -530,7 +507,7 @@ theorem sc_native_decodes (c : CodecImpl) (conv : List Int → List Int) (ts pi 
           · exact absurd h hpi
         subst this; simp
       · rw [h1]; simp
-    have := (native_cells_decode c conv (scParams ts pi mod) x bytes hwf hfit htsp hba henc).1
+    have := (native_cells_decode c conv (scParams ts pi mod) x bytes hwf htsp hba henc).2.1
     simpa [hnc] using this
 
 /-- the same through a lossless codec (RLE, JPEG-LS) -/
